@@ -183,8 +183,19 @@ pub struct Scratch {
 impl Scratch {
     pub fn create(spec: &TreeSpec) -> std::io::Result<Scratch> {
         let n = COUNTER.fetch_add(1, Ordering::SeqCst);
-        let top = std::env::temp_dir().join(format!("waxverif-{}-{}", std::process::id(), n));
-        let _ = std::fs::remove_dir_all(&top);
+        // The name must never coincide with a directory left behind by an earlier process that was
+        // killed (process ids are reused, and a leftover owned by another user cannot be removed):
+        // besides the process id and a counter it carries the time this process first needed one.
+        // (Only a name: no oracle looks at it.)
+        static STARTED: std::sync::OnceLock<u128> = std::sync::OnceLock::new();
+        let started = *STARTED.get_or_init(|| std::time::SystemTime::now().duration_since(std::time::UNIX_EPOCH).map(|d| d.as_nanos()).unwrap_or(0));
+        let top = std::env::temp_dir().join(format!("waxverif-{}-{:x}-{}", std::process::id(), started & 0xffff_ffff_ffff, n));
+        if top.exists() {
+            let _ = std::fs::remove_dir_all(&top);
+            if top.exists() {
+                return Err(std::io::Error::new(std::io::ErrorKind::AlreadyExists, "stale scratch directory that cannot be removed"));
+            }
+        }
         std::fs::create_dir_all(&top)?;
         let _ = std::fs::set_permissions(&top, std::fs::Permissions::from_mode(0o777));
         let root = top.join("r").join("t");
